@@ -309,12 +309,19 @@ type faultyWriter struct {
 	fired    bool
 	accepted []byte
 	calls    int
+	onFault  func() // called at the moment the writer first reports its fault (error or short write)
 }
 
 var errFault = errors.New("injected fault")
 
-func (w *faultyWriter) Write(p []byte) (int, error) {
+func (w *faultyWriter) Write(p []byte) (n int, err error) {
 	w.calls++
+	defer func() {
+		if (err != nil || n < len(p)) && w.onFault != nil {
+			w.onFault()
+			w.onFault = nil
+		}
+	}()
 	take := func(n int) int {
 		w.accepted = append(w.accepted, p[:n]...)
 		w.got += n
@@ -348,6 +355,30 @@ func (w *faultyWriter) Write(p []byte) (int, error) {
 	return take(len(p)), nil
 }
 
+// armFault / afterFault: on a counting source used by this script alone, count the calls the digit
+// source receives from the moment the writer first reports its fault until the print call has
+// returned and the producer is quiescent. In a sequential script the producer is parked whenever a
+// reader runs (every wait returns with len(data) >= maxLength), so any such call was requested
+// AFTER the fault. Reported as a fourth field "/<n>"; absent without a counting source.
+func (e *scriptEnv) armFault(w *faultyWriter) {
+	if e.src == nil || e.shared {
+		return
+	}
+	e.src.afterFlt.Store(0)
+	src := e.src
+	w.onFault = func() { src.faulted.Store(true) }
+}
+
+func (e *scriptEnv) afterFault() string {
+	if e.src == nil || e.shared {
+		return ""
+	}
+	e.consulted() // wait for quiescence
+	n := e.src.afterFlt.Load()
+	e.src.faulted.Store(false)
+	return fmt.Sprintf("/%d", n)
+}
+
 func (e *scriptEnv) execPrint(op string, h handle, a []string) (string, bool) {
 	switch op {
 	case "pr": // pr:h:positions:opts
@@ -376,6 +407,7 @@ func (e *scriptEnv) execPrint(op string, h handle, a []string) (string, bool) {
 		pv := buildPositions(h.v, a[2])
 		o := parseOpts(h.v, a[3])
 		w := &faultyWriter{mode: atoi(a[4]), k: atoi(a[5])}
+		e.armFault(w)
 		var n int
 		var err error
 		switch h.v {
@@ -386,7 +418,7 @@ func (e *scriptEnv) execPrint(op string, h handle, a []string) (string, bool) {
 		default:
 			n, err = sq3.Fprint(w, h.s3, pv.p3, o.o3...)
 		}
-		return fmt.Sprintf("%d/%v/x%s", n, err != nil, hex.EncodeToString(w.accepted)), true
+		return fmt.Sprintf("%d/%v/x%s", n, err != nil, hex.EncodeToString(w.accepted)) + e.afterFault(), true
 	case "fwr": // fwr:h:opts:mode:k
 		if h.v != 3 {
 			return "na", true
@@ -396,8 +428,9 @@ func (e *scriptEnv) execPrint(op string, h handle, a []string) (string, bool) {
 			return "na", true
 		}
 		w := &faultyWriter{mode: atoi(a[3]), k: atoi(a[4])}
+		e.armFault(w)
 		n, err := sq3.Fwrite(w, fs, parseOpts(3, a[2]).o3...)
-		return fmt.Sprintf("%d/%v/x%s", n, err != nil, hex.EncodeToString(w.accepted)), true
+		return fmt.Sprintf("%d/%v/x%s", n, err != nil, hex.EncodeToString(w.accepted)) + e.afterFault(), true
 	}
 	return "", false
 }
